@@ -1,6 +1,6 @@
 (* Properties/C14.v — pinned statements only. *)
 From Boreal Require Import Base.Prelude Base.ListX Base.Bytes Model.Literals Model.AcScan Model.Limits
-  Spec.TextSpec Model.TextCase Proofs.LimitsProofs Proofs.TextMain Proofs.LimitsRecord Proofs.LimitsPrefix.
+  Spec.TextSpec Model.TextCase Proofs.LimitsProofs Proofs.TextMain Proofs.LimitsRecord Proofs.LimitsPrefix Proofs.LimitsData.
 
 (* limit: for every rule set, every region layout, every matcher kind (atom path and raw path), no
    string collects more than string_max_nb_matches matches *)
@@ -32,6 +32,19 @@ Theorem C14_record_fields :
     sm_base x = rg_start rg
     /\ sm_data x = ntake (N.min (sm_len x) (p_match_max_length prm)) (ndrop (sm_off x) (rg_mem rg)).
 Proof. exact built_on_fields. Qed.
+
+(* the data a record carries is never longer than match_max_length nor than the match itself: every
+   matcher kind (no contract on the matcher needed), every region layout, every string of the set *)
+Theorem C14_record_data_bounded :
+  forall prm var regions x, In x (scan_var_fragmented prm var regions) ->
+    nlen (sm_data x) <= p_match_max_length prm /\ nlen (sm_data x) <= sm_len x.
+Proof. exact record_data_bounded. Qed.
+
+Theorem C14_record_data_bounded_all :
+  forall prm vars regions,
+    Forall (Forall (fun x => nlen (sm_data x) <= p_match_max_length prm /\ nlen (sm_data x) <= sm_len x))
+           (scan_fragmented prm vars regions).
+Proof. exact record_data_bounded_all. Qed.
 
 (* the record statement in full — positive length, inside the fetched region whose base the match
    carries, data = the first min(length, match_max_length) bytes found there.
@@ -139,3 +152,5 @@ Print Assumptions C14_raw_zero_length_refuted.
 Print Assumptions C14_prefix_raw.
 Print Assumptions C14_prefix_ac_general.
 Print Assumptions C14_prefix_ac.
+Print Assumptions C14_record_data_bounded.
+Print Assumptions C14_record_data_bounded_all.
